@@ -189,7 +189,8 @@ func c07rSplits(thorough bool) [][]int64 {
 		{513}, {256, 513}, {255, 257, 513},
 	}
 	if thorough {
-		s = append(s, []int64{770}, []int64{512, 770}, []int64{300, 513, 770}, []int64{3}, []int64{1, 2, 3}, []int64{512}, []int64{256, 512}, []int64{511, 512, 514})
+		s = append(s, []int64{3}, []int64{1, 2, 3}, []int64{512}, []int64{256, 512}, []int64{511, 512, 514},
+			[]int64{770}, []int64{512, 770}, []int64{300, 513, 770}, []int64{768}, []int64{769}, []int64{256, 768, 1025})
 	}
 	return s
 }
@@ -203,11 +204,11 @@ func c07rCases(thorough bool) []c07rCase {
 			lost int
 		}
 		hs := []hm{{"x509", 0}, {"mixed", 0}}
-		if len(sizes) == 1 && sizes[0] == 1 {
-			hs = []hm{{"x509", 0}, {"mixed", 0}}
-		}
 		if len(sizes) >= 2 {
 			hs = []hm{{"mixed", 0}}
+			if thorough {
+				hs = []hm{{"x509", 0}, {"mixed", 0}}
+			}
 			for r := 2; r <= len(sizes); r++ {
 				hs = append(hs, hm{"dups", r})
 			}
@@ -358,6 +359,7 @@ type c07rOutcome struct {
 	poisonKept int
 	poisonRepl int
 	tailMiss   int
+	tailHit    int
 	tClone, tTool, tResubmit, tRows time.Duration
 }
 
@@ -545,6 +547,8 @@ func c07rApplyState(w *c07rWorld, c c07rCase, h *c07rHist, nonMember *c07rEnt) (
 	return poisoned, true
 }
 
+var c07rToolCPU time.Duration
+
 func c07rRunTool(w *c07rWorld) (int, string) {
 	bin := os.Getenv("VERIF_BIN_RECOMPUTE_CACHE")
 	if bin == "" {
@@ -553,6 +557,9 @@ func c07rRunTool(w *c07rWorld) (int, string) {
 	cmd := exec.Command(bin, "-c", w.config, "-log", c07rShortName)
 	cmd.Dir = w.base
 	out, err := cmd.CombinedOutput()
+	if cmd.ProcessState != nil {
+		c07rToolCPU += cmd.ProcessState.UserTime() + cmd.ProcessState.SystemTime()
+	}
 	if err != nil {
 		if ee, ok := err.(*exec.ExitError); ok {
 			return ee.ExitCode(), string(out)
@@ -598,7 +605,10 @@ func c07rRunCase(c c07rCase, scratch, fast string) *c07rOutcome {
 
 func c07rRunState(m *c07rMaster, c c07rCase, scratch, fast string) *c07rOutcome {
 	o := &c07rOutcome{}
-	logBase, err := os.MkdirTemp(scratch, "c07r-log-")
+	// The master directory (written by the real sequencer, with real fsyncs and
+	// immutable flags) is on the scratch file system; the per-state copy the tool
+	// reads and the resubmission round extends is a plain copy next to the cache.
+	logBase, err := os.MkdirTemp(fast, "c07r-log-")
 	if err != nil {
 		c07rEngineErr("%v", err)
 	}
@@ -658,12 +668,13 @@ func c07rRunState(m *c07rMaster, c c07rCase, scratch, fast string) *c07rOutcome 
 	before, legacyBefore := c07rReadRows(w.cache)
 	o.rowsBefore = len(before)
 
-	// the documented reach of the tool: it does not fetch the trailing partial tile
-	// unless it is the only tile (sunlight.Client.Entries)
+	// What the tool owes: its comment says it intentionally does not insist on
+	// the trailing partial tile ("a single partial tile of duplicates is not the
+	// end of the world, and the partial tile might be gone"). Entries in full
+	// tiles must be in the cache afterwards; entries that only occur in the
+	// trailing partial tile may or may not be (today they are when the log is
+	// smaller than one tile): whatever IS answered from the cache must be right.
 	o.covered = h.n / verifmc.TileW * verifmc.TileW
-	if o.covered == 0 {
-		o.covered = h.n
-	}
 
 	t0 = time.Now()
 	o.toolExit, o.toolOut = c07rRunTool(w)
@@ -684,12 +695,27 @@ func c07rRunState(m *c07rMaster, c c07rCase, scratch, fast string) *c07rOutcome 
 	if len(legacyAfter) != len(legacyBefore) {
 		o.bad("recompute-cache changed the legacy cache table (%d -> %d rows)", len(legacyBefore), len(legacyAfter))
 	}
-	for k, r := range before {
+	removed := 0
+	for k := range before {
 		if _, ok := after[k]; !ok {
-			o.bad("recompute-cache removed the row for key %x.. (timestamp %d, index %d)", k[:8], r.Time, r.Index)
+			removed++
 		}
 	}
-	for k, r := range after {
+	if removed > 0 {
+		o.bad("recompute-cache removed %d of the %d rows the cache held", removed, len(before))
+	}
+	sorted := make([]c07rRow, 0, len(after))
+	for _, r := range after {
+		sorted = append(sorted, r)
+	}
+	sort.Slice(sorted, func(a, b int) bool {
+		if sorted[a].Index != sorted[b].Index {
+			return sorted[a].Index < sorted[b].Index
+		}
+		return bytes.Compare(sorted[a].Key[:], sorted[b].Key[:]) < 0
+	})
+	for _, r := range sorted {
+		k := r.Key
 		if b, ok := before[k]; ok && b == r {
 			continue // untouched
 		}
@@ -714,7 +740,7 @@ func c07rRunState(m *c07rMaster, c c07rCase, scratch, fast string) *c07rOutcome 
 	}
 	for i := int64(0); i < o.covered; i++ {
 		if _, ok := after[c07rLeafKey(h.leaves[i])]; !ok {
-			o.bad("after recompute-cache the cache has no row for leaf %d (%d of %d leaves are in tiles the tool reads)", i, o.covered, h.n)
+			o.bad("after recompute-cache the cache has no row for leaf %d (%d of %d leaves are in full tiles)", i, o.covered, h.n)
 			break
 		}
 	}
@@ -802,6 +828,9 @@ func c07rRunState(m *c07rMaster, c c07rCase, scratch, fast string) *c07rOutcome 
 			default:
 				o.tailMiss++ // in the trailing partial tile the tool is documented to skip
 			}
+		}
+		if p.source == "cache" && occ[0] >= o.covered {
+			o.tailHit++
 		}
 		if e.IsPrecert {
 			// the same precertificate entry with another chain and other PreCertificate bytes
